@@ -1330,6 +1330,12 @@ class TLSConnection(TLSRecordLayer):
         resuming = False
         if sr_psk:
             clPSK = clientHello.getExtension(ExtensionType.pre_shared_key)
+            if clPSK is None or sr_psk.selected >= len(clPSK.identities) or \
+                    sr_psk.selected < 0:
+                for result in self._sendError(
+                        AlertDescription.illegal_parameter,
+                        "Server selected PSK identity we did not offer"):
+                    yield result
             ident = clPSK.identities[sr_psk.selected]
             psk = [i[1] for i in settings.pskConfigs if i[0] == ident.identity]
             if psk:
